@@ -512,6 +512,9 @@ func (s *State) evalBuiltin(node *ast.Builtin) object.Object {
 		return s.quote(node.Parameters[0])
 	case token.DEL:
 		return s.evalDelete(node.Parameters[0])
+	case token.ERROR, token.PRINT, token.PRINTLN, token.LOG:
+		// evaluates each argument itself, exactly once (the first one used to be evaluated here as well).
+		return s.evalPrintLogError(node)
 	default:
 	}
 	var val object.Object
@@ -530,8 +533,6 @@ func (s *State) evalBuiltin(node *ast.Builtin) object.Object {
 			val = object.String{Value: val.(object.Error).Value}
 		}
 		return object.MakeQuad(ErrorKey, object.NativeBoolToBooleanObject(isError), object.ValueKey, val)
-	case token.ERROR, token.PRINT, token.PRINTLN, token.LOG:
-		return s.evalPrintLogError(node)
 	case token.FIRST:
 		return object.First(val)
 	case token.REST:
